@@ -60,6 +60,8 @@ def r_op(o):
         return "OpDerive %s %s %s %s" % (sc, cN(g("acct")), cN(g("br")), cN(g("idx")))
     if k == "dcache":
         return "OpDeriveCache %s %s %s %s" % (sc, cN(g("acct")), cN(g("br")), cN(g("idx")))
+    if k == "dcachefill":
+        return "OpCacheFill %s %s %s %s %d%%nat" % (sc, cN(g("acct")), cN(g("br")), cN(g("idx")), int(g("n")))
     if k == "encrypt":
         return "OpEncrypt %s" % KT[o["kt"]]
     if k == "decrypt":
@@ -105,11 +107,19 @@ def r_slot(b):
     return "(%s, %s)" % (s, cbool(b["live"]))
 
 
+GCLASS = {"key": "GKey", "acct": "GAcct", "script": "GScript", "cache": "GCache"}
+
+
 def r_entry(e):
     if "s" in e and e["s"] is not None:
         s = e["s"]
-        return "TSnap {| sn_locked := %s; sn_watch := %s; sn_relaxed := %s; sn_slots := %s |}" % (
-            cbool(s["l"]), cbool(s["w"]), cbool(s.get("x", False)), clist([r_slot(b) for b in s.get("b") or []]))
+        gone = s.get("g") or {}
+        known = ["(%s, %d%%nat)" % (GCLASS[c], n) for c, n in sorted(gone.items()) if c in GCLASS]
+        other = sum(n for c, n in gone.items() if c not in GCLASS)
+        return ("TSnap {| sn_locked := %s; sn_watch := %s; sn_relaxed := %s; sn_slots := %s; sn_gone := %s; "
+                "sn_other := %d%%nat |}") % (
+            cbool(s["l"]), cbool(s["w"]), cbool(s.get("x", False)), clist([r_slot(b) for b in s.get("b") or []]),
+            clist(known), other)
     return "TOp (%s) %s" % (r_op(e["o"]), RC[e["r"]])
 
 
@@ -121,14 +131,27 @@ def r_case(c):
 
 class C05(Check):
     ID = "C05"
-    RULE = ("real waddrmgr.Manager on a bbolt file (Create with FastScryptOptions, four default scopes). corpus/C05 replays + 9 fixed scenario histories "
+    RULE = ("real waddrmgr.Manager on a bbolt file (Create with FastScryptOptions, four default scopes). corpus/C05 replays + 17 fixed scenario histories "
             "+ n random histories of 13..26 main operations: Unlock with the right / a near-miss (trailing space, case, dropped first "
             "or last byte, doubled, empty) / an unrelated / a former passphrase, Lock, ChangePassphrase private and public (locked "
             "and unlocked, right and wrong old passphrase), restart (Open with right / wrong public passphrase), NewAccount, "
             "NewAccountWatchingOnly, AccountProperties, Next{External,Internal}Addresses, ImportPrivateKey (also duplicates), "
             "ImportScript / ImportWitnessScript (secret and public) / ImportTaprootScript, Address, PrivKey, Script, "
-            "DeriveFromKeyPath, DeriveFromKeyPathCache, ConvertToWatchingOnly, MarkUsed (evicts the address object from the cache), "
-            "ForEachAccountAddress, InvalidateAccountCache.  The harness KEEPS the address objects it is handed (results of "
+            "DeriveFromKeyPath, DeriveFromKeyPathCache, ConvertToWatchingOnly, MarkUsed (evicts the address object from the cache; "
+            "chained, imported-key and script addresses), ForEachAccountAddress, InvalidateAccountCache; one corpus history fills the "
+            "LRU of derived keys beyond its capacity (10001 DeriveFromKeyPathCache calls).  MEMORY: before the first and after every "
+            "main operation (and after its probes) the harness walks, by reflection over ALL fields and with no list of field names, "
+            "the object graph under the *Manager (scoped managers, account infos, address objects, derive-on-unlock entries, the LRU "
+            "list, crypto keys) and the objects it was handed; it registers every waddrmgr object by identity and keeps a REFERENCE to "
+            "the backing memory of every buffer that can hold secret clear text, classified by TYPE (private *hdkeychain.ExtendedKey, "
+            "btcec.PrivateKey, snacl.CryptoKey / *CryptoKey wherever they hang - masterKeyPub / cryptoKeyPub excepted; the named "
+            "clear-text byte fields privKeyCT, scriptClearText of a secret script, hashedPrivPassphrase); every other byte field of "
+            "waddrmgr / snacl structs is retained too and SCANNED for the bytes of the secrets seen while unlocked and of the account / "
+            "coin-type keys the harness derives itself from the wallet seed.  Whenever the manager is locked or watching-only (after "
+            "Lock, after a failed Unlock, after a conversion, after a restart) every retained reference is read: the oracle demands "
+            "all-zero bytes / no embedded secret, for buffers the manager still reaches (cleartext_survives_lock, "
+            "secret_copy_survives_lock) and for buffers of objects it has dropped (evicted_cleartext_survives_lock@<buffer>:<operation "
+            "during which the object left the manager's state>).  The harness KEEPS the address objects it is handed (results of "
             "Next*Addresses, DeriveFromKeyPath, Address, ForEachAccountAddress, imports; up to 40, dropped at a restart) and, after "
             "every main operation that leaves the manager locked or watching-only, calls PrivKey+ExportPrivKey / Script(+TaprootScript) "
             "on every kept object (its privKeyEncrypted / clear-text fields read by reflection are inputs of the model's accessor), "
@@ -137,7 +160,10 @@ class C05(Check):
             "DeriveFromKeyPath+PrivKey, DeriveFromKeyPathCache, Encrypt/Decrypt for the three key types, and while locked or "
             "watching-only NewAccount, ImportPrivateKey, ImportScript(secret).  IsLocked, WatchOnly and the liveness of every "
             "clear-text buffer (hook VerifSecretBuffers + accountInfo.last{External,Internal}Addr by reflection) are recorded after "
-            "every main operation and after its probes.  non-trivial = the history contains a private accessor probed while locked "
+            "every main operation and after its probes.  Compared with the model: every result class (in a locked / watching-only "
+            "state 'locked' and 'watching-only' are interchangeable), the two flags, and - in locked / watching-only snapshots only - "
+            "every observed live buffer must be live in the model and every live buffer of a dropped object must be accounted for by "
+            "the model's record `gone`, class by class; the contents of an UNLOCKED manager's memory are not compared.  non-trivial = the history contains a private accessor probed while locked "
             "or watching-only, a wrong-passphrase Unlock, a passphrase change, a restart, a Lock or a conversion; distinct by input")
     N_QUICK = 140
     N_THOROUGH = 3000
@@ -150,27 +176,43 @@ class C05(Check):
         "every database transaction commits iff the operation returned nil (memory ahead of disk after an aborted transaction is "
         "C08/C10's subject); no BIP32 child is invalid; ExtendAddresses (S3), NewScopedKeyManager and the imported pseudo-account "
         "as a derivation source are not among the operations",
-        "address objects kept by a caller are not part of the model's state: the accessors on them (OpHeldPrivKey / OpHeldScript) "
-        "take the object's fields as input (observed by reflection) and are called by the harness only while the manager is locked "
-        "or watching-only, where they return before touching anything; the theorem quantifies over ALL field values.  Observation, "
-        "not an oracle kind: objects the manager no longer tracks (DeriveFromKeyPath / ForEachAccountAddress results, addresses "
-        "evicted by MarkUsed) keep their clear text after Lock - the manager cannot reach them (counted in input_distribution "
-        "under observation:untracked_kept_object_holds_cleartext_while_locked:*)",
-        "clear-text buffers are the ones named by the hook plus accountInfo.last{External,Internal}Addr; copies handed to callers "
-        "(returned keys, objects returned by DeriveFromKeyPath) and garbage not yet collected are outside any model",
+        "accessors on address objects kept by a caller (OpHeldPrivKey / OpHeldScript) take the object's fields as input (observed by "
+        "reflection) and are called by the harness only while the manager is locked or watching-only, where they return before "
+        "touching anything; the theorem quantifies over ALL field values",
+        "WHOSE copy: an object that was at any time part of the manager's own state (reachable from the *Manager through its fields: "
+        "the addrs and acctInfo maps, last addresses, the derive-on-unlock queue, the LRU) is the manager's responsibility also after "
+        "the manager drops it - the property says 'every in-memory clear-text copy' - and is recorded in the model's `gone`; an "
+        "object that was only ever RETURNED to a caller (DeriveFromKeyPath / ForEachAccountAddress on an unlocked manager), like a "
+        "returned *btcec.PrivateKey, is the caller's copy: not covered by 'Locking clears', only by the access-control clause.  What "
+        "a caller does to an object after the manager dropped it (PrivKey() on it while unlocked caches the key again) is the "
+        "caller's: the harness calls kept objects only while locked",
+        "temporaries that were never stored in a field (decrypted buffers, big integers inside btcec) and garbage of objects the "
+        "harness never saw reachable are not observable",
         "ImportPrivateKey on a watching-only manager is documented to store the public key only; the theorem states exactly that "
         "(no encrypted private key is stored, every later private accessor on the address fails with a watching-only error)",
-        "the nine booleans of Generated/LockFacts.v are extracted syntactically (go/ast) from waddrmgr/*.go on every run; the "
-        "theorems take them as `= true` premises discharged by eq_refl in Properties/C05.v",
+        "the facts of Generated/LockFacts.v (19 booleans and the LRU capacity) are extracted syntactically (go/ast) from "
+        "waddrmgr/*.go on every run, or - when the source shape is not recognised - by running witness histories on the built code "
+        "and reading the retained references; 14 of them are `= true` premises discharged by eq_refl in Properties/C05.v; the "
+        "five eviction facts are FALSE on the present tree (known findings evicted_cleartext_survives_lock) and are an explicit "
+        "premise of C05_locked_holds_no_cleartext_anywhere",
     ]
     PARTIAL_CLAUSES = [
         "cryptographic strength (scrypt, secretbox, sha512) enters through the ideal law above; the real primitives are exercised "
         "by the harness (right / near-miss / former passphrases), not proved",
-        "'clears every in-memory copy' is proved for the buffers the model names and observed for the buffers the hook and the "
-        "reflection read; Go's garbage (unreferenced copies) is not observable",
+        "'clears every in-memory copy': proved for every buffer the manager can still reach (C05_locked_holds_no_cleartext) and "
+        "for what lock() itself drops (C05_lock_clears); for objects dropped EARLIER, while unlocked, it is proved only under the "
+        "premise evict_ok (+ lru_eviction_zeroes for the LRU), which the present tree does not satisfy: seven known findings "
+        "evicted_cleartext_survives_lock (MarkUsed, InvalidateAccountCache, replaced last address, derive-on-unlock queue, LRU); "
+        "C05_refuted_without_eviction_wipe gives the failing histories, corpus/C05/e*.json replays them, "
+        "corpus/C05/e_fix_proposed.diff repairs four of the five sites",
+        "observed, not modelled: which unknown byte field holds a copy of a secret (secret_copy_survives_lock) - the model has no "
+        "such buffers, any hit is an unexplained violation",
         "cryptoKeyScript is never loaded by Unlock (observation S5): its slot is empty in every state, locked or not",
     ]
-    EXTRA_TRUSTED = ["reflection on ScopedKeyManager.acctInfo[*].last{External,Internal}Addr.privKeyCT in the harness (the hook does not report these buffers)"]
+    EXTRA_TRUSTED = ["reflection on ScopedKeyManager.acctInfo[*].last{External,Internal}Addr.privKeyCT in the harness (the hook does not report these buffers)",
+                     "harness/cmd/c05/secrets.go: reflect + unsafe walk of the manager's object graph, retained references to backing "
+                     "arrays (reads only; relies on Go's non-moving heap), classification of secret-bearing types, the short list of "
+                     "public-by-design buffers (masterKeyPub, cryptoKeyPub, *Encrypted, snacl.Parameters, privPassphraseSalt)"]
 
     def __init__(self):
         self._t_shrink = 0.0
@@ -281,7 +323,13 @@ class C05(Check):
                     rcs[key] = rcs.get(key, 0) + 1
                 else:
                     snaps += 1
+        finds = {}
+        for c in cases:
+            for f in c["obs"].get("secret_findings") or []:
+                key = "%s|%s|%s|%s" % (f["status"], f["class"], f.get("left_at", ""), f["how"])
+                finds[key] = finds.get(key, 0) + 1
         return dict(implementation_calls=calls, probe_calls=probes, snapshots_compared=snaps, result_classes=rcs,
+                    secret_findings_by_class=finds,
                     facts_source=getattr(self, "_facts_source", None),
                     facts_extracted=dict(self._facts(), **({"extractor_refused": self._facts_error,
                                                             "used_instead": "all true"} if getattr(self, "_facts_error", None) else {})))
@@ -292,7 +340,19 @@ class C05(Check):
                    ("f_keyless_not_queued", "keyless_addresses_not_queued"),
                    ("f_change_rejects_empty", "change_rejects_empty_private"),
                    ("f_privkey_checks_first", "privkey_checks_lock_first"),
-                   ("f_unlock_preloads", "unlock_loads_queued_accounts")]
+                   ("f_unlock_preloads", "unlock_loads_queued_accounts"),
+                   ("f_z_acct", "lock_zeroes_account_keys"), ("f_z_key", "address_lock_zeroes_key"),
+                   ("f_z_script", "address_lock_zeroes_script"), ("f_z_cache", "lock_zeroes_cached_keys"),
+                   ("f_z_mgr", "lock_zeroes_manager_keys"),
+                   ("f_e_markused", "markused_wipes_evicted"), ("f_e_invalidate", "invalidate_wipes_evicted"),
+                   ("f_e_next", "next_wipes_replaced_last"), ("f_e_unlock", "unlock_leaves_no_cleartext_in_dropped"),
+                   ("f_e_lru", "lru_eviction_zeroes")]
+    # the facts the theorems need (= true); the f_e_* ones are the known findings
+    # of known_findings.json (evicted_cleartext_survives_lock): when the extractor
+    # refuses the source the correspondence runs with these as they are on the
+    # unrepaired tree
+    EVICT_FACTS = ("markused_wipes_evicted", "invalidate_wipes_evicted", "next_wipes_replaced_last",
+                   "unlock_leaves_no_cleartext_in_dropped", "lru_eviction_zeroes")
 
     def _facts(self):
         """the facts of the tree the harness was built from (same extractor as Generated/LockFacts.v)"""
@@ -303,19 +363,23 @@ class C05(Check):
             try:
                 res, self._facts_source = extract_c05.facts(REPO)
                 self._facts_cache = {n: bool(res[n]) for _, n in self.FACT_FIELDS}
+                self._facts_cache["priv_key_cache_size"] = int(res["priv_key_cache_size"])
             except Exception as e:      # noqa: the extractor refused the source shape
                 # Never crash the check: the refusal is a broken obligation (recorded by the
                 # driver through work/extract_errors.json, and below if that marker is
                 # missing); the correspondence runs with the facts of the repaired code
-                # (all true) so that the oracle can still look for a failing input.
+                # (the 14 required ones true, the eviction facts as on the unrepaired tree) so that
+                # the oracle can still look for a failing input.
                 self._facts_error = "%s: %s" % (type(e).__name__, str(e)[-1200:])
-                self._facts_source = "none (both paths failed); correspondence evaluated with all facts = true"
-                self._facts_cache = {n: True for _, n in self.FACT_FIELDS}
+                self._facts_source = "none (both paths failed); correspondence evaluated with the required facts = true"
+                self._facts_cache = {n: (n not in self.EVICT_FACTS) for _, n in self.FACT_FIELDS}
+                self._facts_cache["priv_key_cache_size"] = 10000
         return self._facts_cache
 
     def _facts_term(self):
         f = self._facts()
-        return "{| " + "; ".join("%s := %s" % (fld, cbool(f[n])) for fld, n in self.FACT_FIELDS) + " |}"
+        return ("{| " + "; ".join("%s := %s" % (fld, cbool(f[n])) for fld, n in self.FACT_FIELDS)
+                + "; f_cache_cap := %s |}" % cN(f["priv_key_cache_size"]))
 
     # ---- model evaluation
     def render_cases(self, cases):
